@@ -31,7 +31,7 @@ for d in sorted(os.listdir(S)):
     prop = 'C02' if d == 'M01' else d[:3]
     fired = {k: v for k, v in r.get('checks', {}).items() if v != 'ok'}
     meta = dict(
-        seed=d, property=prop, batch=0 if d.startswith('M') else {'-b': 2, '-c': 3, '-d': 4, '-e': 5, '-f': 6, '-g': 7, '-h': 8, '-i': 9, '-j': 10, '-k': 11, '-l': 12, '-m': 13, '-n': 14, '-o': 15, '-p': 16, '-q': 17}.get(d[3:], 1),
+        seed=d, property=prop, batch=0 if d.startswith('M') else {'-b': 2, '-c': 3, '-d': 4, '-e': 5, '-f': 6, '-g': 7, '-h': 8, '-i': 9, '-j': 10, '-k': 11, '-l': 12, '-m': 13, '-n': 14, '-o': 15, '-p': 16, '-q': 17, '-r': 18}.get(d[3:], 1),
         files_changed=files,
         change=section(md, r'change|idea') or md.split('\n')[0].lstrip('# '),
         breaks=section(md, r'break|statement'),
